@@ -322,6 +322,41 @@ impl EpochSnapshotManager {
     }
 }
 
+#[cfg(feature = "verif-hooks")]
+impl EpochSnapshotManager {
+    pub(crate) fn verif_clone_impl(&self) -> Self {
+        let inner = self.inner.lock().unwrap();
+        Self {
+            inner: Mutex::new(EpochSnapshotManagerInner {
+                snapshots: inner.snapshots.clone(),
+                hydrated_groups: inner.hydrated_groups.clone(),
+            }),
+            retention_count: self.retention_count,
+        }
+    }
+
+    pub(crate) fn verif_queue(
+        &self,
+        group_id: &GroupId,
+    ) -> Vec<crate::verif_hooks::SnapshotQueueEntry> {
+        let inner = self.inner.lock().unwrap();
+        inner
+            .snapshots
+            .get(group_id)
+            .map(|q| {
+                q.iter()
+                    .map(|s| crate::verif_hooks::SnapshotQueueEntry {
+                        epoch: s.epoch,
+                        applied_commit_id: s.applied_commit_id,
+                        applied_commit_ts: s.applied_commit_ts,
+                        snapshot_name: s.snapshot_name.clone(),
+                    })
+                    .collect()
+            })
+            .unwrap_or_default()
+    }
+}
+
 #[cfg(test)]
 mod tests {
     use std::collections::BTreeSet;
